@@ -192,6 +192,33 @@ func (c *fragCtx) expr(e ast.Expr) string {
 			return "((" + strings.Join(parts, ", ") + ") : " + c.leanType(c.typeOf(x)) + ")"
 		}
 		return c.fail("composite literal")
+	case *ast.FuncLit:
+		// a closure whose body is a single `return e` with e free of partial operations: a Lean lambda
+		if len(x.Body.List) != 1 || x.Type.Results == nil || len(x.Type.Results.List) != 1 {
+			return c.fail("function literal shape")
+		}
+		ret, ok := x.Body.List[0].(*ast.ReturnStmt)
+		if !ok || len(ret.Results) != 1 {
+			return c.fail("function literal shape")
+		}
+		var binders []string
+		for _, f := range x.Type.Params.List {
+			if len(f.Names) == 0 {
+				return c.fail("function literal with an unnamed parameter")
+			}
+			for _, n := range f.Names {
+				if c.countDefs(n.Name) != 1 {
+					return c.fail("function literal parameter %s re-declared", n.Name)
+				}
+				binders = append(binders, "("+lv(n.Name)+" : "+c.leanType(c.typeOf(f.Type))+")")
+			}
+		}
+		n := len(c.pre)
+		body := c.expr(ret.Results[0])
+		if len(c.pre) != n {
+			return c.fail("partial operation in a function literal")
+		}
+		return "(fun " + strings.Join(binders, " ") + " => " + body + ")"
 	case *ast.SelectorExpr:
 		// a field of a struct value
 		if selInfo, ok := c.f.pkg.TypesInfo.Selections[x]; ok && selInfo.Kind() == types.FieldVal && len(selInfo.Index()) == 1 {
@@ -313,7 +340,8 @@ func (c *fragCtx) call(x *ast.CallExpr) string {
 	case *types.Builtin:
 		if id.Name == "len" && len(x.Args) == 1 {
 			lt := c.leanTypeOf(x.Args[0])
-			if !strings.HasPrefix(lt, "(List") || strings.Contains(lt, "×") {
+			// for a map: the number of entries (the keys of the association list are unique)
+			if !strings.HasPrefix(lt, "(List") {
 				return c.fail("len of %s", lt)
 			}
 			return "(" + c.expr(x.Args[0]) + ".length : Int)"
